@@ -37,6 +37,23 @@ pub fn load_from_string(
     parse(&mut tok)
 }
 
+// Malformed input is reported as BadJson, never by panicking
+fn bad_json(what: &str) -> StoryError {
+    StoryError::BadJson(format!("Malformed JSON: {what}"))
+}
+
+fn value_str<'a>(value: &'a JsonValue, what: &str) -> Result<&'a str, StoryError> {
+    value.as_str().ok_or_else(|| bad_json(what))
+}
+
+fn value_i32(value: &JsonValue, what: &str) -> Result<i32, StoryError> {
+    value.as_integer().ok_or_else(|| bad_json(what))
+}
+
+fn read_i32(tok: &mut JsonTokenizer, what: &str) -> Result<i32, StoryError> {
+    tok.read_number()?.as_integer().ok_or_else(|| bad_json(what))
+}
+
 fn parse(
     tok: &mut JsonTokenizer,
 ) -> Result<(i32, Rc<Container>, Rc<ListDefinitionsOrigin>), StoryError> {
@@ -50,7 +67,7 @@ fn parse(
         ));
     }
 
-    let version: i32 = tok.read_number().unwrap().as_integer().unwrap();
+    let version: i32 = read_i32(tok, "inkVersion")?;
 
     if version > INK_VERSION_CURRENT {
         return Err(StoryError::BadJson(
@@ -129,10 +146,10 @@ fn jtoken_to_runtime_object(
         JsonValue::Boolean(value) => Ok(ArrayElement::RTObject(Rc::new(Value::new::<bool>(value)))),
         JsonValue::Number(value) => {
             if value.is_integer() {
-                let val: i32 = value.as_integer().unwrap();
+                let val: i32 = value.as_integer().ok_or_else(|| bad_json("number"))?;
                 Ok(ArrayElement::RTObject(Rc::new(Value::new::<i32>(val))))
             } else {
-                let val: f32 = value.as_float().unwrap();
+                let val: f32 = value.as_float().ok_or_else(|| bad_json("number"))?;
                 Ok(ArrayElement::RTObject(Rc::new(Value::new::<f32>(val))))
             }
         }
@@ -140,12 +157,9 @@ fn jtoken_to_runtime_object(
             let str = value.as_str();
 
             // String value
-            let first_char = str.chars().next().unwrap();
-            if first_char == '^' {
-                return Ok(ArrayElement::RTObject(Rc::new(Value::new::<&str>(
-                    &str[1..],
-                ))));
-            } else if first_char == '\n' && str.len() == 1 {
+            if let Some(text) = str.strip_prefix('^') {
+                return Ok(ArrayElement::RTObject(Rc::new(Value::new::<&str>(text))));
+            } else if str == "\n" {
                 return Ok(ArrayElement::RTObject(Rc::new(Value::new::<&str>("\n"))));
             }
 
@@ -195,13 +209,13 @@ fn jtoken_to_runtime_object(
 
             // // VariablePointerValue
             if prop == "^var" {
-                let variable_name = prop_value.as_str().unwrap();
+                let variable_name = value_str(&prop_value, "^var")?;
                 let mut contex_index = -1;
 
                 if tok.peek()? == ',' {
                     tok.expect(',')?;
                     tok.expect_obj_key("ci")?;
-                    contex_index = tok.read_number().unwrap().as_integer().unwrap();
+                    contex_index = read_i32(tok, "ci")?;
                 }
 
                 let var_ptr = Rc::new(Value::new_variable_pointer(variable_name, contex_index));
@@ -233,7 +247,7 @@ fn jtoken_to_runtime_object(
             }
 
             if is_divert {
-                let target = prop_value.as_str().unwrap().to_string();
+                let target = value_str(&prop_value, "divert target")?.to_string();
 
                 let mut var_divert_name: Option<String> = None;
                 let mut target_path: Option<String> = None;
@@ -252,7 +266,8 @@ fn jtoken_to_runtime_object(
                     } else if prop == "c" {
                         conditional = true;
                     } else if prop == "exArgs" {
-                        external_args = prop_value.as_integer().unwrap() as usize;
+                        external_args = usize::try_from(value_i32(&prop_value, "exArgs")?)
+                            .map_err(|_| bad_json("exArgs"))?;
                     }
                 }
 
@@ -275,12 +290,12 @@ fn jtoken_to_runtime_object(
             // Choice
             if prop == "*" {
                 let mut flags = 0;
-                let path_string_on_choice = prop_value.as_str().unwrap();
+                let path_string_on_choice = value_str(&prop_value, "choice point path")?;
 
                 if tok.peek()? == ',' {
                     tok.expect(',')?;
                     tok.expect_obj_key("flg")?;
-                    flags = tok.read_number().unwrap().as_integer().unwrap();
+                    flags = read_i32(tok, "flg")?;
                 }
 
                 tok.expect('}')?;
@@ -294,14 +309,14 @@ fn jtoken_to_runtime_object(
             if prop == "VAR?" {
                 tok.expect('}')?;
                 return Ok(ArrayElement::RTObject(Rc::new(VariableReference::new(
-                    prop_value.as_str().unwrap(),
+                    value_str(&prop_value, "VAR?")?,
                 ))));
             }
 
             if prop == "CNT?" {
                 tok.expect('}')?;
                 return Ok(ArrayElement::RTObject(Rc::new(
-                    VariableReference::from_path_for_count(prop_value.as_str().unwrap()),
+                    VariableReference::from_path_for_count(value_str(&prop_value, "CNT?")?),
                 )));
             }
 
@@ -318,7 +333,7 @@ fn jtoken_to_runtime_object(
             }
 
             if is_var_ass {
-                let var_name = prop_value.as_str().unwrap();
+                let var_name = value_str(&prop_value, "variable name")?;
                 let mut is_new_decl = true;
 
                 if tok.peek()? == ',' {
@@ -340,9 +355,10 @@ fn jtoken_to_runtime_object(
             // // Legacy Tag
             if prop == "#" {
                 tok.expect('}')?;
-                return Ok(ArrayElement::RTObject(Rc::new(Tag::new(
-                    prop_value.as_str().unwrap(),
-                ))));
+                return Ok(ArrayElement::RTObject(Rc::new(Tag::new(value_str(
+                    &prop_value,
+                    "tag text",
+                )?))));
             }
 
             // List value
@@ -385,8 +401,8 @@ fn jtoken_to_runtime_object(
 
             // Used when serialising save state only
             if prop == "originalChoicePath" {
-                todo!("originalChoicePath");
-                // return jobject_to_choice(obj); // TODO
+                // A choice object only occurs in saved states, which this loader does not read
+                return Err(bad_json("a choice object is not story content"));
             }
 
             // Last Element
@@ -399,9 +415,9 @@ fn jtoken_to_runtime_object(
 
             loop {
                 if p == "#f" {
-                    flags = pv.as_integer().unwrap();
+                    flags = value_i32(&pv, "#f")?;
                 } else if p == "#n" {
-                    name = Some(pv.as_str().unwrap().to_string());
+                    name = Some(value_str(&pv, "#n")?.to_string());
                 } else {
                     let named_content_item = jtoken_to_runtime_object(tok, pv, Some(p.clone()))?;
 
@@ -417,7 +433,7 @@ fn jtoken_to_runtime_object(
                     let named_sub_container = named_content_item
                         .into_any()
                         .downcast::<Container>()
-                        .unwrap();
+                        .map_err(|_| bad_json("named content is not a container"))?;
 
                     named_only_content.insert(p, named_sub_container);
                 }
@@ -447,7 +463,7 @@ fn parse_list(tok: &mut JsonTokenizer) -> Result<HashMap<String, i32>, StoryErro
 
     while tok.peek()? != '}' {
         let key = tok.read_obj_key()?;
-        let value = tok.read_number().unwrap().as_integer().unwrap();
+        let value = read_i32(tok, "list item value")?;
         list_content.insert(key, value);
 
         if tok.peek()? != '}' {
@@ -464,7 +480,10 @@ fn jarray_to_container(
     tok: &mut JsonTokenizer,
     name: Option<String>,
 ) -> Result<Rc<dyn RTObject>, StoryError> {
-    let (content, named) = jarray_to_runtime_obj_list(tok)?;
+    tok.enter_nested()?;
+    let list = jarray_to_runtime_obj_list(tok);
+    tok.leave_nested();
+    let (content, named) = list?;
 
     // Final object in the array is always a combination of
     //  - named content
